@@ -110,6 +110,20 @@ def candidatesC (ch : List PC) (key : Key) : Option (List Port) := (valuesC ch).
 /-- `__contains__` :682-688 (`has_key` :702) -/
 def containsC (ch : List PC) (key : Key) : Bool := (getItemC ch key).isSome
 
+/-- `has_key` :702 -/
+def hasKeyC (ch : List PC) (key : Key) : Bool := containsC ch key
+
+/-- `get(k, default=None)` :704-708: `self[k]`, `IndexError` becomes the default -/
+def getC (ch : List PC) (key : Key) (dflt : Option Port) : Option Port :=
+  match getItemC ch key with
+  | some p => some p
+  | none => dflt
+
+/-- `copy` :709-711: a fresh collection (no masks, no chain) holding `values()`.  (In the tree the method ends without
+`return r`, so callers get `None`; `fixes/C17_portcollection_copy_return.diff` adds the return.  `none` here is the
+`IndexError` `values()` could raise.) -/
+def copyC (ch : List PC) : Option PC := (valuesC ch).map (fun vs => ⟨vs, []⟩)
+
 /-- `__getitem__` as in the unrepaired tree: any index is looked up in `_ports`, then in the chain, and the port
 found there is returned unless its number is masked.  Kept for the D17 witness only. -/
 def getItemLegacyC : List PC → Key → Option Port
@@ -158,5 +172,37 @@ def step (v : View) : PMsg → View
   | .status r p => portStatus v r p
 
 def run (v : View) (ms : List PMsg) : View := ms.foldl step v
+
+/-! ## the handshake phase  (`HandshakeOpenFlowHandlers`, of_01.py:329-392)
+
+Before the barrier reply the connection's handler table is the handshake one: the features reply :337-339 makes the same three
+assignments as the default handler and starts the list `_deferred_port_status` :344; a port status :370-373 is dropped when that
+list is `None` (no features reply yet) and appended otherwise; `_finish_connecting` :390-394 installs the default handlers and
+hands the deferred messages to `handle_PORT_STATUS`, in order, then sets the list to `None`. -/
+
+structure HConn where
+  deferred : Option (List (Nat × Port))
+  view : View
+  deriving DecidableEq, Repr
+
+def HConn.init : HConn := ⟨none, View.init⟩
+
+inductive HMsg where
+  | features (ports : List Port)
+  | status (reason : Nat) (p : Port)
+  deriving DecidableEq, Repr
+
+def hsStep (c : HConn) : HMsg → HConn
+  | .features ps => { deferred := some [], view := featuresReply c.view ps }
+  | .status r p =>
+    match c.deferred with
+    | none => c
+    | some d => { c with deferred := some (d ++ [(r, p)]) }
+
+/-- `_finish_connecting` :390-394 — the view the connected state starts from -/
+def hsFinish (c : HConn) : View :=
+  match c.deferred with
+  | none => c.view
+  | some d => d.foldl (fun v x => portStatus v x.1 x.2) c.view
 
 end Pox.PortView
